@@ -35,7 +35,7 @@ mutant("nmi-pushes-pc-plus-1", ["C07", "C06"], [("cpu.go", """		cpu.SP -= 2
 		cpu.PC = 0x0066""", """		cpu.SP -= 2
 		cpu.writeU16(cpu.SP, cpu.PC+1)
 		cpu.PC = 0x0066""")])
-mutant("ldir-rewinds-by-1", ["C07", "C09"], [("op_exbtsg.go", """func oopLDIR(cpu *CPU) {
+mutant("ldir-rewinds-by-1", ["C09"], [("op_exbtsg.go", """func oopLDIR(cpu *CPU) {
 	oopLDI(cpu)
 	if cpu.AF.Lo&maskPV != 0 { // cpu.BC != 0
 		cpu.PC -= 2""", """func oopLDIR(cpu *CPU) {
